@@ -223,12 +223,12 @@ CHECKS["C25"] = dict(
     technique="rapid fault-injection testing (stalled peer) in a synctest bubble with a liveness oracle at quiescence", design_ref="DESIGN.md §4 C25")
 
 CHECKS["C21"] = dict(
-    pkg="props/c21", level="exploration", gomaxprocs=2,
+    pkg="props/c21", level="exploration", gomaxprocs=4,
     rule="two scenarios. (a) the real WorkerTaskQueue (1-4 workers, per-peer outstanding-work limit {unset,1,2}) with an instrumented executor that holds every task until the script releases it: 3-40 operations {push a task for one of 2-4 peers with priority 0-3, remove (cancel) one of a peer's not-yet-started tasks, let one running task finish, let 120 ms pass}; after every operation, at exact quiescence: tasks executing at once <= workers and, per peer, <= the per-peer limit, no task executed twice; at the end every running task is released repeatedly and virtual time passes the thaw interval: every task pushed and not removed was executed exactly once, no removed task ran. (b) two real instances exchanging 2-4 requests (responder holds everything) with MaxInProgressOutgoingRequests / MaxInProgressIncomingRequests from {1,2,3}, per-peer limit {unset,1}, executions held inside per-request storage gates / block-hook stalls and released by the script: at every quiescent point the number of executions the harness itself is holding, and the active list the node reports, are within the limits; at the end every request (none is cancelled) has run to completion (its channels are closed; what it delivered is the business of C02 and C20). Non-trivial: a limit was binding while other work waited (and, for (a), at least two peers had work).",
     assumptions=_SIM_ASSUME + ["starvation under unbounded arrival streams is not decidable by finite scripts: what is checked is completion of every finite arrival pattern"],
     quick=dict(shards=2, timeout=400), thorough=dict(shards=16, timeout=3000),
     level_text="Generated arrival / completion / cancel scripts against the real worker queue with an instrumented executor, and against real instances with held executions; limits checked at every quiescent point, completion at the end.",
-    level_note="Trusts synctest quiescence; executions are counted by the harness's own gates, independently of the node's reports.",
+    level_note="Trusts synctest quiescence; executions are counted by the harness's own gates, independently of the node's reports. Runs with GOMAXPROCS=4 so that the order in which goroutines woken by one event run varies (the oracles do not depend on it).",
     technique="rapid operation-sequence testing of the worker queue and of real instances in a synctest bubble", design_ref="DESIGN.md §5 C21")
 
 CHECKS["C12"] = dict(
